@@ -335,3 +335,7 @@ Definition route_diagnose (g : graph) (q : params) (r : route) : Z :=
                    end then 13
       else 0
   end.
+
+(** [route_ok]: the name under which the checker is the judge of the property (every route the real
+    [find_route] returns is evaluated with it / with [route_diagnose] inside Coq) *)
+Definition route_ok (g : graph) (q : params) (r : route) : bool := route_check g q r.
